@@ -359,8 +359,13 @@ Relation(g, e, X) ==
          ELSE (IF b.out.kind # e.out.kind THEN {GP(e, "accepts_differently:" \o b.model.kind \o "/" \o e.model.kind)}
                ELSE IF ~Ok(e) THEN (IF b.out.exc = e.out.exc THEN {} ELSE {GP(e, "exception_class_differs:" \o b.out.exc \o "/" \o e.out.exc)})
                ELSE IF IsPredEv(e) THEN (IF OutErased(b) = OutErased(e) THEN {} ELSE {GP(e, "prediction_differs:" \o b.model.kind \o "/" \o e.model.kind)})
-               ELSE IF IsRateEv(e) /\ {b.model.kind, e.model.kind} = {"BTF", "BTP"} /\ N(e) = 2
-                      THEN (IF OutErased(b) = OutErased(e) THEN {} ELSE {GP(e, "bt_part_differs_from_full_on_two_teams")})
+               ELSE IF IsRateEv(e) /\ N(e) = 2 /\ e.model.kind \in {"BTF", "BTP"}
+                      THEN \* Bradley-Terry partial against Bradley-Terry full, whichever of the two came first in the group
+                           LET other == IF e.model.kind = "BTP" THEN "BTF" ELSE "BTP"
+                               K == {k \in 1..Len(g.evs) : g.evs[k].e.model.kind = other /\ Ok(g.evs[k].e)}
+                           IN  IF K = {} THEN {}
+                               ELSE LET o == g.evs[CHOOSE k \in K : TRUE].e
+                                    IN  IF OutErased(o) = OutErased(e) THEN {} ELSE {GP(e, "bt_part_differs_from_full_on_two_teams")}
                ELSE {})
 
     \* two-team game under the three outcomes: roles base = team 1 wins, "draw", "loss"   [C05]
